@@ -64,7 +64,8 @@ class C19Class(Harness):
     name = "C19Class"
     prop = "C19"
     bounds = ("locate_droplets on 7 grid families (Cartesian 1D/2D/3D, polar, spherical, cylindrical both periodic_z) x "
-              "modes in {0,1,2,3} x interface width {unset, 0, symbolic>0} x refine {off, on}; the binary-image locator is "
+              "modes in {0,1,2,3} x interface width {unset, 0, symbolic>0} x refine {off, on}; plus refinement of a candidate of "
+              "symbolic radius in [1/4, 8] (up to covering every cell) on the 1D, polar and spherical grids; the binary-image locator is "
               "replaced by 2 candidate spherical droplets with symbolic parameters (and by none); field values symbolic")
     stubs = ["locate_droplets_in_mask replaced by symbolic candidates (its own behaviour is C01/C02)",
              "scipy.optimize.least_squares contract stub without the cost clause (arbitrary result within the bounds; "
@@ -86,6 +87,10 @@ class C19Class(Harness):
                             continue
                         out.append(dict(GRIDS[g], g=g, modes=modes, width=width, refine=refine,
                                         _cost=(8 if refine else 1) * (1 + modes)))
+        # refinement of a candidate of any size, up to one that covers every cell of the grid
+        for g in ("c1", "polar", "sph"):
+            for width in ("none", "sym"):
+                out.append(dict(GRIDS[g], g=g, modes=0, width=width, refine=True, big=True, _cost=10))
         return out
 
     def install(self, env, cfg):
@@ -96,7 +101,7 @@ class C19Class(Harness):
         w = dict(w=F(rng.randint(1, 1500), 1000), dummy=F(0))
         for k in range(2):
             sample_positions(sp, rng, w, k)
-            w[f"r{k}"] = F(rng.randint(300, 900), 1000)
+            w[f"r{k}"] = F(rng.randint(300, 900), 1000) if not cfg.get("big") else F(rng.randint(300, 7900), 1000)
         return w
 
     def body(self, env, cfg):
@@ -110,7 +115,12 @@ class C19Class(Harness):
             width = env.real("w", 0, 2, strict_lo=True) if not refine else env.const(F(3, 4))
         cands = []
         for k in range(2):
-            if refine and cfg["g"] != "c1":
+            if cfg.get("big"):
+                p = conc_position(sp, k)
+                cands.append((p, env.real(f"r{k}", F(1, 4), 8)))
+                if k == 0:
+                    env.cover("candidate covers every cell of the grid", cands[0][1] > 6)
+            elif refine and cfg["g"] != "c1":
                 p = conc_position(sp, k)
                 cands.append((p, env.const(F(3, 4) + F(k, 8))))
             else:
